@@ -539,6 +539,37 @@ def _numeric_probe(ob, seed, tries=4000, want=200):
     return dict(detail='solver undecided; %d admissible random points agree' % hits)
 
 
+def apply_lemmas(ob, budget_ms=4000):
+    """relational callee lemmas applied by REWRITING before solving: once a lemma's argument relation (premise) is discharged -
+    ring normal form first, z3 under the hypotheses otherwise - the related application is replaced by its partner everywhere.
+    The rewritten obligation needs no lemma any more (ring normal form and the sampler can work on it)."""
+    from .ir import ring_proves, subst as _sb
+    apps = [n for n in _nodes(ob) if n.op == 'app']
+    m = {}
+    zz = None; hyp = None
+    for lem in ob.lemmas:
+        for premise, equations, label in lem(apps):
+            ok = False
+            try: ok = ring_proves(premise)
+            except RecursionError: ok = False
+            if not ok:
+                if zz is None:
+                    zz = Z(); hyp = [zz.b(h) for h in ob.hyps]
+                sv = z3.Solver(); sv.set('timeout', budget_ms); sv.add(*hyp); sv.add(*zz.side); sv.add(z3.Not(zz.b(premise)))
+                ok = sv.check() == z3.unsat
+            if ok:
+                for a, b in equations:
+                    if ('#', a.id) not in m and a is not b: m[('#', a.id)] = b
+    if not m: return ob
+    memo = {}
+    # resolve chains a -> b -> c
+    for k in list(m):
+        t = m[k]; seen = 0
+        while ('#', t.id) in m and seen < 8: t = m[('#', t.id)]; seen += 1
+        m[k] = t
+    return Ob(ob.name, [_sb(h, m, memo) for h in ob.hyps], _sb(ob.goal, m, memo), ob.prop, ob.expect, dict(ob.meta, lemmas_applied=len(m)), ())
+
+
 def _ring_equiv_to_hyp(x, hyps, rm):
     """conjunct  a' ~ b'  follows from a hypothesis  a ~ b  (same relation) when a' - b' == a - b as rational functions"""
     from .ir import ring_equal
@@ -558,6 +589,20 @@ def _ring_equiv_to_hyp(x, hyps, rm):
 def solve_one(ob, timeout_s=60, second=False, seed=0):
     """conjunctive goals are proved conjunct by conjunct (each: ring normal form, sampling, z3); the obligation is discharged
     when every conjunct is, refuted as soon as one conjunct is refuted"""
+    if ob.expect == 'unsat':
+        # hypotheses `variable == term` are solved for the variable first (lets the ring normal form use them)
+        try:
+            eqs = _eq_subst(ob)
+            if eqs:
+                from .ir import subst as _sb
+                m_ = {}
+                hy2 = [x for x in (_sb(h, eqs, m_) for h in ob.hyps) if x is not TRUE]
+                ob = Ob(ob.name, hy2, _sb(ob.goal, eqs, m_), ob.prop, ob.expect, ob.meta, ob.lemmas)
+        except RecursionError:
+            pass
+    if ob.expect == 'unsat' and ob.lemmas:
+        try: ob = apply_lemmas(ob)
+        except RecursionError: pass
     g = ob.goal
     if ob.expect != 'unsat' or g.op != 'and' or len(g.a) < 2 or ob.meta.get('nosplit'):
         return _solve_atomic(ob, timeout_s, second, seed)
